@@ -97,8 +97,8 @@ def r3_entry_frame(ck, F):
     fw = fmt.footer_write(F)
     ck.ob(R, "footer-write", tup(fw) == (("table", "index_offsets", ("u64>::to_be_bytes",), False), ("count", "index_offsets", ("u32>::to_be_bytes",))), f"footer written as {fw} (offset table u64 BE in order, then its u32 BE count)", F.body(A("bw_finish")))
     fr = fmt.footer_read(F)
-    okc = fr.get("count") and fr["count"][0] == "u32>::from_be_bytes" and tup(fr["count"][1]) == (("-4+len", "len"),)
-    okt = fr.get("table") and "u64>::from_be_bytes" in fr["table"][0] and fr["table"][1] == 8 and fr["table"][2] is False and tup(fr["table"][3]) == (("-4+-8*count+len", "-4+len"),)
+    okc = fr.get("count") and fr["count"][0] == "u32 BE" and tup(fr["count"][1]) == (("-4+len", "len"),)
+    okt = fr.get("table") and "u64 BE" in fr["table"][0] and fr["table"][1] == 8 and fr["table"][2] is False and tup(fr["table"][3]) == (("-4+-8*count+len", "-4+len"),)
     okp = fr.get("payload_size") == "-4+-8*count+len"
     ck.ob(R, "footer-read", bool(okc and okt and okp), f"footer read as {fr}", F.body(A("block_read_from")))
 
@@ -106,8 +106,8 @@ def r3_entry_frame(ck, F):
 def r4_index_entry(ck, F):
     R = "C09-R4"
     w, r = fmt.index_entry_values(F)
-    ck.ob(R, "values-written-be-u64", len(w) >= 4 and all(x[1] == "u64>::to_be_bytes" for x in w), f"index entry values are written with {sorted(set(x[1] for x in w))} at {len(w)} sites", config=F.config)
-    ck.ob(R, "values-read-be-u64", len(r) >= 8 and all(x[1] == "u64>::from_be_bytes" for x in r), f"index entry values are decoded with {sorted(set(x[1] for x in r))} at {len(r)} sites", config=F.config)
+    ck.ob(R, "values-written-be-u64", len(w) >= 4 and all(x[1] == "u64 BE" for x in w), f"index entry values are written with {sorted(set(x[1] for x in w))} at {len(w)} sites", config=F.config)
+    ck.ob(R, "values-read-be-u64", len(r) >= 4 and all(x[1] == "u64 BE" for x in r), f"index entry values are decoded with {sorted(set(x[1] for x in r))} at {len(r)} sites", config=F.config)
 
 
 def r5_endian(ck, F):
@@ -115,13 +115,13 @@ def r5_endian(ck, F):
     inv = fmt.endianness_inventory(F)
     bad = []
     for f, fn, cv in inv:
-        if "_ne_bytes" in cv or "NativeEndian" in cv:
+        if "_ne_bytes" in cv or "NativeEndian" in cv or " NE " in cv:
             bad.append((f, fn, cv, "native endian"))
         elif f.endswith("metadata.rs"):
-            if "LittleEndian" not in cv:
+            if " LE " not in cv:
                 bad.append((f, fn, cv, "trailer must be little endian"))
         elif f.endswith(("writer.rs", "block_writer.rs", "block.rs", "reader_cursor.rs")):
-            if not ("_be_bytes" in cv or "BigEndian" in cv):
+            if " BE " not in cv:
                 bad.append((f, fn, cv, "blocks / index entries must be big endian"))
     ck.ob(R, "endianness-per-file", not bad, f"{len(inv)} integer<->bytes conversions: trailer little-endian, everything else big-endian" + (f" — deviations: {bad}" if bad else ""), config=F.config, conversions=len(inv))
     ck.floor(R, "integer<->bytes conversions inventoried", len(inv), 18, F.config)
